@@ -1669,17 +1669,42 @@ def cost_options(prog: Program) -> RuleResult:
     )
     mod = prog.module(CLI)
     cost_events = None
+    table_name = None
+    rows: List[Tuple[str, str]] = []  # (event member, option name)
     for node in mod.tree.body:
-        if isinstance(node, ast.Assign) and dotted(node.targets[0]) == "cost_events" and isinstance(node.value, ast.Dict):
-            cost_events = node.value
+        if not (isinstance(node, ast.Assign) and isinstance(node.targets[0], ast.Name)):
+            continue
+        val = node.value
+        found: List[Tuple[str, str]] = []
+        if isinstance(val, ast.Dict):
+            for k, v in zip(val.keys, val.values):
+                ev = dotted(k) if k is not None else None
+                if ev and ev.split(".")[0] in ("NodeEvent", "EdgeEvent") and isinstance(v, ast.Tuple):
+                    opts = [e.value for e in v.elts if isinstance(e, ast.Constant) and isinstance(e.value, str) and " " not in e.value]
+                    if len(opts) == 1:
+                        found.append((ev.split(".")[1], opts[0]))
+        elif isinstance(val, (ast.Tuple, ast.List)):
+            for row in val.elts:
+                if isinstance(row, ast.Tuple):
+                    evs = [dotted(e) for e in row.elts if dotted(e) and dotted(e).split(".")[0] in ("NodeEvent", "EdgeEvent")]
+                    opts = [e.value for e in row.elts if isinstance(e, ast.Constant) and isinstance(e.value, str) and " " not in e.value]
+                    if len(evs) == 1 and len(opts) == 1:
+                        found.append((evs[0].split(".")[1], opts[0]))
+        if len(found) >= 3:
+            cost_events, table_name, rows = val, node.targets[0].id, found
     if cost_events is None:
-        raise AnalysisError("cli.reconcile: cost_events not found")
-    cli_keys = [dotted(k).split(".")[1] for k in cost_events.keys if dotted(k)]
-    optnames = [
-        v.elts[0].value
-        for v in cost_events.values
-        if isinstance(v, ast.Tuple) and v.elts and isinstance(v.elts[0], ast.Constant)
-    ]
+        raise AnalysisError("cli.reconcile: table of cost options (event, option name, description) not found")
+    cli_keys = [ev for ev, _o in rows]
+    optnames = [o for _ev, o in rows]
+    # the documented option of each unit cost (README: --cost-spe / -dup / -hgt / -floss / -sloss)
+    DOCUMENTED = {"SPECIATION": "spe", "DUPLICATION": "dup", "HORIZONTAL_TRANSFER": "hgt", "FULL_LOSS": "floss", "SEGMENTAL_LOSS": "sloss"}
+    crossed = [(ev, o) for ev, o in rows if DOCUMENTED.get(ev) not in (None, o)]
+    construct = f"{CLI}:cost_events/option-of-each-cost"
+    if crossed:
+        ev, o = crossed[0]
+        res.fail(construct, f"--cost-{o} sets the cost of {ev} (documented: --cost-{DOCUMENTED[ev]}): the minimum that is printed is computed under another cost vector than the one requested", mod, cost_events)
+    else:
+        res.ok(construct, ", ".join(f"--cost-{o} -> {ev}" for ev, o in rows))
     gd = prog.func(MODEL, "get_default_cost")
     d = _returned_dict(gd)
     default_keys = [dotted(k).split(".")[1] for k in d.keys if dotted(k)]
@@ -1715,7 +1740,7 @@ def cost_options(prog: Program) -> RuleResult:
             t = node.targets[0]
             if isinstance(t.slice, ast.Constant) and t.slice.value == "costs":
                 text = ast.unparse(node.value)
-                if "cost_events" in text and "getattr(args" in text and "cost_{" in text:
+                if table_name in text and "getattr(args" in text and "cost_{" in text:
                     ok_read = True
     if ok_read:
         res.ok(f"{CLI}:read_input/costs", "data['costs'] built from every cost option")
